@@ -101,6 +101,7 @@ fn guard_plan(rng: &mut Rng) -> AllocPlan {
 }
 
 const EQUIV_FAMS: &[(Family, u32)] = &[
+    (Family::Idioms, 3),
     (Family::IoPressure, 2),
     (Family::Brackets, 1),
     (Family::Raw, 4),
@@ -112,6 +113,8 @@ const EQUIV_FAMS: &[(Family, u32)] = &[
 ];
 
 const JIT_FAMS: &[(Family, u32)] = &[
+    (Family::Long, 1),
+    (Family::Idioms, 3),
     (Family::IoPressure, 5),
     (Family::Brackets, 1),
     (Family::Raw, 3),
@@ -122,6 +125,7 @@ const JIT_FAMS: &[(Family, u32)] = &[
 ];
 
 const ROAM_FAMS: &[(Family, u32)] = &[
+    (Family::Idioms, 3),
     (Family::Raw, 2),
     (Family::Corpus, 1),
     (Family::Structured, 2),
@@ -135,6 +139,19 @@ const DIV_FAMS: &[(Family, u32)] = &[
     (Family::Raw, 4),
     (Family::Structured, 2),
     (Family::Corpus, 2),
+];
+
+const BC_FAMS: &[(Family, u32)] = &[
+    (Family::Long, 1),
+    (Family::Idioms, 3),
+    (Family::IoPressure, 2),
+    (Family::Brackets, 1),
+    (Family::Raw, 4),
+    (Family::Corpus, 3),
+    (Family::Structured, 7),
+    (Family::Roamer, 2),
+    (Family::Pressure, 1),
+    (Family::Divergent, 1),
 ];
 
 fn levels_for(rng: &mut Rng, backend: Backend, with_high: bool) -> Vec<u32> {
@@ -160,7 +177,7 @@ pub fn make_checks(prop: &str, rng: &mut Rng, env: &GenEnv) -> (Vec<Check>, Stri
         "C01" | "C02" | "C03" | "C04" => {
             let (backend, fams) = match prop {
                 "C01" => (Backend::IrInt, EQUIV_FAMS),
-                "C02" => (Backend::BcInt, EQUIV_FAMS),
+                "C02" => (Backend::BcInt, BC_FAMS),
                 "C03" => (Backend::BaseJit, JIT_FAMS),
                 _ => (Backend::Inplace, EQUIV_FAMS),
             };
@@ -217,6 +234,12 @@ pub fn make_checks(prop: &str, rng: &mut Rng, env: &GenEnv) -> (Vec<Check>, Stri
             if r.status == Status::Halted && r.canon_steps <= env.exec_cap() {
                 budgets.push(1 << 62);
                 budgets.push(u64::MAX >> 1);
+                // budgets around the 32-bit boundaries of the counter
+                for b in [(1u64 << 31) - 1, 1 << 31, (1 << 31) + 1, (1 << 32) - 1, 1 << 32, (1 << 32) + 1, (1 << 32) + 3, (1 << 40) + 3] {
+                    if rng.chance(1, 2) {
+                        budgets.push(b);
+                    }
+                }
             }
             budgets.sort();
             budgets.dedup();
